@@ -68,6 +68,7 @@ type vfCfg struct {
 	DenyKeys      []string    `json:"deny_keys,omitempty"` // fixture key names whose fingerprints are deny-listed
 	PubKeys       []string    `json:"pub_keys,omitempty"`  // fixture key names pre-published in keymaster_public_keys_filename
 	Email         bool        `json:"email,omitempty"`
+	TZ            string      `json:"tz,omitempty"` // the server's local time zone ("" = UTC)
 	AwsRoles      bool        `json:"aws_roles,omitempty"` // cloud-role certificates for workloads of one allowed AWS account (simulated STS)
 	Federated     bool        `json:"federated,omitempty"` // oauth2 login through a (simulated) identity provider
 }
@@ -440,6 +441,16 @@ func (w *vfWorld) build() error {
 	u2fTrustedFacets = nil
 	vfResetGlobals()
 
+	// the daemon's local time zone (calendar arithmetic on local times differs from duration arithmetic across DST switches)
+	wantLoc := time.UTC
+	if w.cfg.TZ != "" {
+		if loc, err := time.LoadLocation(w.cfg.TZ); err == nil {
+			wantLoc = loc
+		}
+	}
+	if time.Local.String() != wantLoc.String() {
+		time.Local = wantLoc
+	}
 	w.writeHelperCtl("ok")
 	cfgFile, err := w.writeConfig()
 	if err != nil {
